@@ -298,3 +298,7 @@ mutant("c08-shape-from-elsewhere", "C08", PPF, "            output.shape = unkno
 benign("c08-benign-guard-split", "C08", PPF, "            name = _value_name(output)\n            if name and name in io_names:\n                continue\n", "            name = _value_name(output)\n            if name:\n                if name in io_names:\n                    continue\n")
 mutant("c11-attribute-through-helper-mapping", "C11", "jax2onnx/plugins/flax/nnx/elu.py", 'attrs["alpha"] = float(alpha)', 'attrs["slope"] = float(alpha)', expect="slope")
 mutant("c02-swish-operands-not-compared", "C02", OPT, "        if isinstance(sigmoid_input, ir.Value) and _same_value(\n            sigmoid_input, passthrough\n        ):", "        if isinstance(sigmoid_input, ir.Value):", expect="_same_value")
+mutant("c17-range-last-off-by-one", "C17", OPT, "        last = start + ((limit - start - 1) // delta) * delta\n        return start, last", "        last = start + ((limit - start - 1) // delta) * delta - delta\n        return start, last", expect="range-closed-form")
+mutant("c17-range-negative-delta-sign", "C17", OPT, "    last = start + ((start - limit - 1) // (-delta)) * delta\n    return last, start", "    last = start + ((start - limit - 1) // (-delta)) * delta\n    return start, last", expect="range-closed-form")
+mutant("c17-cast-added-to-value-preserving-ops", "C17", OPT, '        "Expand",\n        "Flatten",', '        "Cast",\n        "Expand",\n        "Flatten",', expect="_INTEGER_VALUE_PRESERVING_OPS::Cast")
+benign("c17-benign-range-conservative", "C17", OPT, "        return start, last", "        return start, max(last, start)")
